@@ -159,39 +159,44 @@ def r3(ctx):
     ctx.roleset("leader-union", leaders)
     ctx.roleset("merge-entries", sorted(merges))
     n_add = n_merge = 0
+
+    def classify(conds):
+        ids_eq = ids_ne = False
+        slots_agree = 0
+        for cond in conds:
+            if cond[0] in ("eq", "ne"):
+                x, y = strip_role(cond[1]), strip_role(cond[2])
+                if isinstance(x, tuple) and isinstance(y, tuple) and x[0] == "field" and y[0] == "field" and x[2] == "id" and y[2] == "id" and x[1] != y[1]:
+                    if cond[0] == "eq":
+                        ids_eq = True
+                    else:
+                        ids_ne = True
+                if cond[0] == "eq":
+                    if (role_mentions_call(x, "slots") and role_mentions_call(y, "bitand")) or (role_mentions_call(y, "slots") and role_mentions_call(x, "bitand")):
+                        slots_agree += 1
+        return ids_eq, ids_ne, slots_agree
+
+    for n, site in enumerate(C.leader_add_sites(crate)):
+        c, fb = site["call"], site["body"]
+        ids_eq, ids_ne, slots_agree = classify(site["conds"])
+        key = "%s:add:%d" % (C.fkey(site["leader"]), n)
+        w = where_of(fb, c.bb)
+        n_add += 1
+        ctx.check(ids_eq and not ids_ne, "add-needs-same-class:" + key, "Group::add is dominated by l.id == r.id",
+                  "a permutation is added to a class group without l.id == r.id having been established", w)
+        ctx.check(slots_agree >= 2, "after-slot-agreement:" + key, "add happens only after both slots()==cap tests passed",
+                  "add is reachable while one side still has a slot the other lacks (only %d of the 2 slot-set agreement guards dominate it)" % slots_agree, w)
     for lid in leaders:
         lb = crate.bodies[lid]
-        adds = [c for c in lb.all_calls() if c.callee and c.callee.is_("add", "group::Group")]
-        mcalls = C.calls_to(crate, lb, merges)
-        for kind, sites in (("add", adds), ("merge", mcalls)):
-            for n, c in enumerate(sites):
-                conds = C.conditions_at(c.body, c.bb)
-                w = where_of(c.body, c.bb)
-                ids_eq = ids_ne = False
-                slots_agree = 0
-                for e, cond in conds:
-                    if cond[0] in ("eq", "ne"):
-                        x, y = strip_role(cond[1]), strip_role(cond[2])
-                        if isinstance(x, tuple) and isinstance(y, tuple) and x[0] == "field" and y[0] == "field" and x[2] == "id" and y[2] == "id" and x[1] != y[1]:
-                            if cond[0] == "eq":
-                                ids_eq = True
-                            else:
-                                ids_ne = True
-                        if cond[0] == "eq":
-                            # slots(X) == cap
-                            if (role_mentions_call(x, "slots") and role_mentions_call(y, "bitand")) or (role_mentions_call(y, "slots") and role_mentions_call(x, "bitand")):
-                                slots_agree += 1
-                key = "%s:%s:%d" % (C.fkey(lb), kind, n)
-                if kind == "add":
-                    n_add += 1
-                    ctx.check(ids_eq and not ids_ne, "add-needs-same-class:" + key, "Group::add is dominated by l.id == r.id",
-                              "a permutation is added to a class group without l.id == r.id having been established", w)
-                else:
-                    n_merge += 1
-                    ctx.check(ids_ne and not ids_eq, "merge-needs-different-class:" + key, "merge is dominated by l.id != r.id",
-                              "the merge function is called without l.id != r.id having been established", w)
-                ctx.check(slots_agree >= 2, "after-slot-agreement:" + key, "%s happens only after both slots()==cap tests passed" % kind,
-                          "%s is reachable while one side still has a slot the other lacks (only %d of the 2 slot-set agreement guards dominate it)" % (kind, slots_agree), w)
+        for n, c in enumerate(C.calls_to(crate, lb, merges)):
+            ids_eq, ids_ne, slots_agree = classify([cond for e, cond in C.conditions_at(c.body, c.bb)])
+            key = "%s:merge:%d" % (C.fkey(lb), n)
+            w = where_of(c.body, c.bb)
+            n_merge += 1
+            ctx.check(ids_ne and not ids_eq, "merge-needs-different-class:" + key, "merge is dominated by l.id != r.id",
+                      "the merge function is called without l.id != r.id having been established", w)
+            ctx.check(slots_agree >= 2, "after-slot-agreement:" + key, "merge happens only after both slots()==cap tests passed",
+                      "merge is reachable while one side still has a slot the other lacks (only %d of the 2 slot-set agreement guards dominate it)" % slots_agree, w)
     ctx.floor("Group::add sites in leader union", n_add, 1)
     ctx.floor("merge call sites in leader union", n_merge, 2)
 
